@@ -457,7 +457,10 @@ Apply(K, v) ==
 
 ObjBuild(es, i, acc, input, env) ==
   IF i > Len(es) THEN R1(Obj(acc))
-  ELSE BindR(Eval(es[i][1], input, env), [k |-> "objK", es |-> es, i |-> i, acc |-> acc, input |-> input, env |-> env])
+  ELSE LET kr == Eval(es[i][1], input, env) IN
+       \* documented divergence (#354): an object key that yields other than exactly one value
+       IF env.strict /\ kr.end.k = "ok" /\ Len(kr.out) # 1 THEN RSkip
+       ELSE BindR(kr, [k |-> "objK", es |-> es, i |-> i, acc |-> acc, input |-> input, env |-> env])
 
 \* reduce: K carries x, env; state s; src = outputs of the source
 ReduceR(src, i, s, upd, K) ==
